@@ -3,6 +3,7 @@ package keymap
 import (
 	"sort"
 	"strings"
+	"unicode/utf8"
 
 	"github.com/reeflective/readline/inputrc"
 	"github.com/reeflective/readline/internal/core"
@@ -61,6 +62,12 @@ func MatchMain(eng *Engine) (bind inputrc.Bind, command func(), prefix bool) {
 
 	// Find the target action, macro or command.
 	bind, prefix, read, _ := eng.dispatchKeys(binds)
+
+	// The binds are sequences of single bytes: a character encoded on
+	// several ones is known to none of them, and is a typed character.
+	if bind.Action == "" && !prefix && len(read) > 0 && read[0] >= utf8.RuneSelf && insertsCharacters(binds) {
+		bind, prefix, read = eng.dispatchCharacter(read)
+	}
 
 	if !bind.Macro {
 		command = eng.commands[bind.Action]
@@ -156,6 +163,48 @@ func (m *Engine) dispatchKeys(binds map[string]inputrc.Bind) (bind inputrc.Bind,
 	}
 
 	return m.active, prefix, read, matched
+}
+
+// dispatchCharacter reads the rest of a multibyte UTF-8 character whose first bytes
+// matched no bind, so that the character is inserted whole instead of being dropped
+// byte after byte. When its last bytes have not been read yet, they are waited for.
+func (m *Engine) dispatchCharacter(read []byte) (bind inputrc.Bind, prefix bool, keys []byte) {
+	for !utf8.FullRune(read) {
+		key, empty := core.PeekKey(m.keys)
+		if empty {
+			return bind, true, read
+		}
+
+		if !utf8.RuneStart(key) {
+			core.PopKey(m.keys)
+			read = append(read, key)
+
+			continue
+		}
+
+		// Not a continuation byte: the character is malformed.
+		return bind, false, read
+	}
+
+	if char, size := utf8.DecodeRune(read); char == utf8.RuneError && size <= 1 {
+		return bind, false, read
+	}
+
+	bind = inputrc.Bind{Action: "self-insert"}
+	m.active = bind
+
+	return bind, false, read
+}
+
+// insertsCharacters returns true if the keymap is one in which typed characters are inserted.
+func insertsCharacters(binds map[string]inputrc.Bind) bool {
+	for _, bind := range binds {
+		if bind.Action == "self-insert" && !bind.Macro {
+			return true
+		}
+	}
+
+	return false
 }
 
 func (m *Engine) matchBind(keys []byte, binds map[string]inputrc.Bind) (inputrc.Bind, []inputrc.Bind) {
